@@ -20,7 +20,9 @@ Profile == Env("PROFILE", "mot")
 TextPool == << <<102,111,111,32,98,97,114,40,98,97,122,41,32,113>>, <<97,46,98,44,32,99>>, <<9,105,110,100,32,120>>, <<>>,
                <<233,28450,32,120,769,121>>, <<32,32,116,119,111,32,32,115,112>>, <<40,97,91,98,93,123,99,125,41>>, <<120>>,
                <<119,111,114,100,32,119,111,114,100,46,119,111,114,100>>, <<97,97,97,32,98,98,98,32,32>>, <<48,95,49,32,97,45,98>>,
-               <<>>, <<102,111,111,98,97,114,32,98,97,114>>, <<65,98,32,97,66,32,97,98>>, <<105,102,32,40,120,41,32,123>>, <<125>> >>
+               <<>>, <<102,111,111,98,97,114,32,98,97,114>>, <<65,98,32,97,66,32,97,98>>, <<105,102,32,40,120,41,32,123>>, <<125>>,
+               (* brackets whose partner is on another, shorter or longer, line *)
+               <<102,40,97,44,10,32,32,32,32,32,32,98,41,32,120>>, <<123,10,9,9,120,32,125,32,121>>, <<91,10,10,32,32,32,32,93>> >>
 PatPool == << <<98,97,114>>, <<97>>, <<94,97>>, <<97,36>>, <<92,60,98,97,114>>, <<98,92,62>>, <<97,42>>, <<120,42>>, <<46>>,
               <<40,97,124,98,41,43>>, <<91,94,97,93>>, <<119,111,114,100>>, <<>>, <<233>>, <<32,32>>, <<111,111>> >>
 CharPool == <<97, 98, 32, 40, 41, 46, 120, 233, 111, 119, 123, 125, 9>>
